@@ -128,9 +128,15 @@ impl Forest {
         let mut program_lines = vec![];
         // Pass 1: compute string data for every node
         for root in self.roots.values() {
+            // Names of the nodes yielded so far. Children are referred to by the name of the
+            // node that was actually printed for them: two distinct nodes with the same IHR
+            // (e.g. two separately named copies of `unit`) are printed only once, under the
+            // name of the first one.
+            let mut yielded_names: Vec<&str> = vec![];
             for data in root.as_ref().post_order_iter::<MaxSharing<_>>() {
                 let node = data.node;
                 let name = node.name();
+                yielded_names.push(name);
                 let mut expr_str = match node.inner() {
                     node::Inner::AssertR(cmr, _) => format!("{} := assertr #{}", name, cmr),
                     node::Inner::Fail(entropy) => format!("{} := fail {}", name, entropy),
@@ -140,13 +146,13 @@ impl Forest {
                     }
                     inner => format!("{} := {}", name, inner),
                 };
-                if let Some(child) = node.left_child() {
+                if let Some(idx) = data.left_index {
                     expr_str.push(' ');
-                    expr_str.push_str(child.name());
+                    expr_str.push_str(yielded_names[idx]);
                 }
-                if let Some(child) = node.right_child() {
+                if let Some(idx) = data.right_index {
                     expr_str.push(' ');
-                    expr_str.push_str(child.name());
+                    expr_str.push_str(yielded_names[idx]);
                 } else if let node::Inner::AssertL(_, cmr) = node.inner() {
                     expr_str.push_str(" #");
                     expr_str.push_str(&cmr.to_string());
